@@ -23,7 +23,7 @@ PROPS = {
                 "inject an I/O failure or short writes at a random trait-level call; plus real dumps of live targets (the C01 generator) into a recording destination "
                 "with pre-existing content and a non-zero starting position: bytes before the start untouched, the image from the start, bytes beyond untouched. "
                 "Non-trivial = at least two flushes; distinct = "
-                "distinct (result, #faults, start-at-end, op-kind sequence). In a third of the live C09 cases the destination refuses one of the last nine calls of the request (call count learnt from a request let through): the request must fail (bytes before the start untouched) or return what the destination holds.",
+                "distinct (result, #faults, start-at-end, op-kind sequence). In a third of the live C09 cases the destination refuses one of the last nine calls of the request (call count learnt from a request let through): the request must fail (bytes before the start untouched) or return what the destination holds. Op histories include entries (of empty streams) published right after the header flush, before anything behind the directory has been flushed.",
         "expected_tags": ["result.ok", "result.err", "result.err-new", "script.fault", "script.short", "start.atEnd", "start.zero", "start.beyond4G", "op.patch", "dest.equal", "start.nonzero", "dest.latefail", "aborted.prefix.checked"],
         "trusted_base": ["the destination honours seek (not O_APPEND) and a write that returns Ok(n) stored exactly the first n bytes",
                          "std::io::Write::write_all loop semantics (modelled; compared call by call)"],
@@ -106,7 +106,7 @@ PROPS = {
     },
     "C20": {
         "rule": "real stack_has_pointer_to_mapping on stacks of length 0 … 64 with words at / next to both ends of the principal mapping at all "
-                "alignments and offsets; [live part: see DESIGN]. Non-trivial = at least two scanned words; distinct = distinct (offset mod 8, #words, hit pattern).",
+                "alignments and offsets; [live part: see DESIGN]. Non-trivial = at least two scanned words; distinct = distinct (offset mod 8, #words, hit pattern). In a third of the live C20 cases the principal mapping is a module with a hole (readable part, inaccessible anonymous page, another part of the same file), addressed and referenced behind the hole.",
         "expected_tags": ["scan.true", "scan.false", "word.eq.high", "word.eq.low", "len<8", "crash.references", "crash.noreference"],
         "trusted_base": [],
         "assumptions": [],
@@ -165,7 +165,7 @@ PROPS = {
                 "Before the last request of each history the target's resource limits are changed (prlimit), and the copies of the target's files that do "
                 "not change by themselves (release file, cmdline, environ, auxv, maps, limits) in that request's dump are compared byte for byte with the "
                 "fresh writer's dump of the same parked target. "
-                "Distinct = distinct (k, option vector, summary length). In a quarter of the histories the target maps the page behind a partly readable application region before the last request; only that request is then compared with the fresh writer's.",
+                "Distinct = distinct (k, option vector, summary length). In a quarter of the histories the target maps the page behind a partly readable application region before the last request; only that request is then compared with the fresh writer's. In a fifth of the histories the requests fail inside the thread-list writer (the crash context's instruction pointer lies in a page behind the end of a mapped file) until the file has grown before the last request.",
         "expected_tags": ["k.2", "k.3", "k.4", "k.5", "cfg.crash", "cfg.app", "cfg.skip", "raw.compared", "target.mutated", "target.grown"],
         "trusted_base": ["the target is blocked in raw syscalls, so its state is the same at every request"],
         "assumptions": ["Linux writer only (src/mac has the same field but cannot be built here)"],
@@ -299,8 +299,8 @@ PROPS = {
                 "traced by another process, threads that exit between enumeration and attach (each omitted thread must be a reported soft error), a target "
                 "that is killed and reaped while the dump is under way (from the destination, when the n-th directory entry is written, n = 6 … 16: every later "
                 "step that copies one of the target's files or reads its memory must be listed under its own label, no completed step may be), nothing induced. The soft-error stream is parsed with serde_json and reduced to its list of variant paths. "
-                "Distinct = (scenario, mask, #threads, principal). Also a linker list with an object name that is not UTF-8 (badlink).",
-        "expected_tags": ["scen.faults", "scen.badname", "scen.baddso", "scen.traced", "scen.none", "scen.killed", "killed.checked", "scen.badlink", "mask.0", "mask.31"],
+                "Distinct = (scenario, mask, #threads, principal). Also a linker list with an object name that is not UTF-8 (badlink). Also: the blamed thread traced by somebody else on a writer that served a request before (traced-reused), compared with a fresh writer's dump of the same situation.",
+        "expected_tags": ["scen.faults", "scen.badname", "scen.baddso", "scen.traced", "scen.none", "scen.killed", "killed.checked", "scen.badlink", "scen.traced-reused", "mask.0", "mask.31"],
         "extra_theorems": ["plan_best_effort_soft", "plan_soft_errors_last"],
         "trusted_base": ["serde_json emits well-formed JSON (the harness re-parses it)", "error-graph pushes a sub-list to its parent on drop iff it is non-empty", "failspot"],
         "assumptions": ["the stop time-out (StopProcessFailed/Timeout) may appear on its own when a thread is traced by another process: timing dependent, tolerated in the natural scenarios"],
